@@ -749,6 +749,23 @@ def recursion_forwards(fn):
     return kws.get("style_kwargs") == "style_kwargs"
 
 
+_GETTER = ("if getattr(self, '_style', None) is None:\n    self._style = self._style_class()\n"
+           "if self._style_kwargs:\n    style_kwargs = self._style_kwargs.copy()\n    {consume}\n    try:\n"
+           "        self._style.update(style_kwargs)\n    except (AttributeError, ValueError) as e:\n"
+           "        e.args = (f'{{self!r}} has been initialized with some invalid style arguments.\\n' + str(e),)\n"
+           "        raise\nreturn self._style")
+GETTER_FORMS = {
+    "rebind": _GETTER.format(consume="self._style_kwargs = {}"),
+    "clear": _GETTER.format(consume="self._style_kwargs.clear()"),     # empties the dict the CALLER may still hold
+}
+BASEGEO_INIT_FORMS = {
+    "pending": ("self._style_kwargs = {}\nself._parent = None\n"
+                "self._init_position_orientation(position, orientation)\n"
+                "if style is not None or kwargs:\n"
+                "    self._style_kwargs = self._process_style_kwargs(style=style, **kwargs)"),
+}
+
+
 def temp_style_restored(fn):
     """utility.style_temp_edit: the object's own style is put back in a `finally` that encloses the yield"""
     node = fn_ast(fn)
@@ -873,6 +890,9 @@ def collect(repo, strict=True):
         "set_children_copies_arg": whole_body_(
             importlib.import_module("magpylib._src.obj_classes.class_Collection").BaseCollection.set_children_styles,
             SCS_FORMS, "Collection.set_children_styles") == "copy",
+        "pending_style_consumed_by_rebinding": (
+            whole_body_(basegeo.style.fget, GETTER_FORMS, "BaseGeo.style getter") == "rebind"
+            and whole_body_(basegeo.__init__, BASEGEO_INIT_FORMS, "BaseGeo.__init__") == "pending"),
         "style_setter_takes_instance": whole_body_(basegeo._validate_style, VALIDATE_STYLE_FORMS,   # pylint: disable=protected-access
                                                   "BaseGeo._validate_style") == "takeover",
         "temp_style_restored_in_finally": guarded(lambda: temp_style_restored(
@@ -941,6 +961,8 @@ def generate(repo):
     out.append(f"Definition magic_merge_fresh : bool := {b(fl['magic_merge_fresh'])}.")
     out.append(f"Definition subobject_instance_copied : bool := {b(fl['subobject_instance_copied'])}.")
     out.append(f"Definition set_children_copies_arg : bool := {b(fl['set_children_copies_arg'])}.")
+    out.append(f"Definition pending_style_consumed_by_rebinding : bool := "
+               f"{b(fl['pending_style_consumed_by_rebinding'])}.")
     out.append(f"Definition style_setter_takes_instance : bool := {b(fl['style_setter_takes_instance'])}.")
     out.append(f"Definition temp_style_restored_in_finally : bool := {b(fl['temp_style_restored_in_finally'])}.")
     out.append(f"Definition recursion_forwards_style_kwargs : bool := {b(fl['recursion_forwards_style_kwargs'])}.\n")
